@@ -8,6 +8,7 @@ import SugarModel.Spec.RefColl
 import SugarModel.Known
 import SugarModel.Generated.CommandTable
 import SugarModel.Driver.AclLines
+import SugarModel.Driver.PubSubLines
 open Sugar Sugar.Driver
 
 def showVal (v : Val) : String := reprStr v
@@ -251,6 +252,12 @@ partial def loop (h : IO.FS.Stream) (out : IO.FS.Stream) : IO Unit := do
     loop h out
   else if line.startsWith "A " then
     out.putStrLn (aVerdict ((line.splitOn " ").filter (· ≠ "")))
+    loop h out
+  else if line.startsWith "P " then
+    out.putStrLn (pVerdict ((line.splitOn " ").filter (· ≠ "")))
+    loop h out
+  else if line.startsWith "G " then
+    out.putStrLn (gVerdict ((line.splitOn " ").filter (· ≠ "")))
     loop h out
   else
   if line.startsWith "U " || line.startsWith "H " then
